@@ -103,6 +103,8 @@ def real_tokens(src):
             continue
         if t.type in skip:
             continue
+        if t.type == xtok.ERRORTOKEN and not t.string.strip(" \t\x0c"):
+            continue                      # the tokenizer reports a blank before `!` as a token: it is a gap
         if pending_block == "await-indent" and t.type != xtok.COMMENT:
             pending_block = None           # no indented body followed
         k = Tok()
@@ -183,14 +185,54 @@ def real_tokens(src):
             pass
         else:
             cmdpos = False
-    # the literal parts of an f-string touch their neighbours; xonsh's tokenizer reports unreliable
-    # positions for them when the literal spans lines, so take the neighbours' word for it
+    # xonsh's tokenizer reports unreliable positions for the literal parts of an f-string that span lines, and
+    # for every token after them on the same logical line.  Re-locate tokens whose reported span does not hold
+    # their text by searching forward; the literal parts of f-strings then lie between their neighbours.
+    pos = 0
+    for i, k in enumerate(out):
+        if k.type == xtok.FSTRING_MIDDLE:
+            continue
+        text = k.string
+        if not (k.a >= pos and src[k.a:k.b] == text):
+            j = pos
+            after_middle = i > 0 and out[i - 1].type == xtok.FSTRING_MIDDLE
+            found = -1
+            while j < len(src):
+                if after_middle and src[j:j + 2] in ("{{", "}}"):
+                    j += 2
+                    continue
+                if after_middle and src[j] == "\\" and "r" not in _fprefix(out, i):
+                    j += 2
+                    continue
+                if src.startswith(text, j):
+                    found = j
+                    break
+                if not after_middle and src[j] not in " \t\n\x0c\\":
+                    break
+                j += 1
+            if found >= 0:
+                k.a, k.b = found, found + len(text)
+        pos = max(pos, k.b)
     for i, k in enumerate(out):
         if k.type == xtok.FSTRING_MIDDLE and 0 < i < len(out) - 1:
             a0, b0 = out[i - 1].b, out[i + 1].a
             if a0 <= b0:
                 k.a, k.b = a0, b0
     return out
+
+
+def _fprefix(out, i):
+    """prefix letters of the f-string the token at index i belongs to"""
+    xtok = _mods()
+    depth = 0
+    for j in range(i - 1, -1, -1):
+        if out[j].type == xtok.FSTRING_END:
+            depth += 1
+        elif out[j].type == xtok.FSTRING_START:
+            if depth == 0:
+                return out[j].string.rstrip("'\"").lower()
+            depth -= 1
+    return ""
 
 
 def _is_env_prefix(src, k):
@@ -235,6 +277,23 @@ def _subproc_rooted(v):
 def _char_script(src, out, base=0):
     sm = difflib.SequenceMatcher(None, src, out, autojunk=False)
     return [(base + i1, base + i2, out[j1:j2]) for tag, i1, i2, j1, j2 in sm.get_opcodes() if tag != "equal"]
+
+
+def _token_script(sx, sy, base):
+    """Differences inside one token (string / f-string literal part / comment): line by line when the
+    number of lines agrees (blanks removed at the end of a line are reported as exactly that)."""
+    lx, ly = sx.split("\n"), sy.split("\n")
+    if len(lx) != len(ly):
+        return _char_script(sx, sy, base)
+    out, pos = [], base
+    for a, b in zip(lx, ly):
+        if a != b:
+            if a.rstrip(" \t\x0c") == b and len(b) < len(a):
+                out.append((pos + len(b), pos + len(a), ""))
+            else:
+                out.extend(_char_script(a, b, pos))
+        pos += len(a) + 1
+    return out
 
 
 def _split_gap(pos, sg, og):
@@ -314,7 +373,7 @@ def _snapped_script(src, out, ts):
                     edits.append((ps, t.a, og))
         sx, sy = src[t.a:t.b], out[oa:ob]
         if sx != sy:
-            edits.extend(_char_script(sx, sy, t.a))
+            edits.extend(_token_script(sx, sy, t.a))
         ps, po = t.b, ob
     start = pending if pending is not None else ps
     if src[start:] != out[po:]:
@@ -344,7 +403,7 @@ def _sequential_script(src, out, ts):
     n = len(out)
     for t in ts:
         text = src[t.a:t.b]
-        if t.b <= t.a or not text.strip(" \t\n\x0c"):
+        if t.b <= t.a or (not text.strip(" \t\n\x0c") and t.type != xtok.FSTRING_MIDDLE):
             continue
         if src[ps:t.a].strip(" \t\n\x0c"):
             return None
@@ -381,7 +440,7 @@ def _sequential_script(src, out, ts):
         if sg != og:
             edits.extend(_split_gap(ps, sg, og))
         if text != out[oa:ob]:
-            edits.extend(_char_script(text, out[oa:ob], t.a))
+            edits.extend(_token_script(text, out[oa:ob], t.a))
         ps, po = t.b, ob
     sg, og = src[ps:], out[po:]
     if sg.strip(" \t\n\x0c") or og.strip(" \t\n\x0c"):
@@ -427,7 +486,7 @@ def edit_script(src, out):
                     edits.extend(_split_gap(ps, sg, og))
                 sx, sy = src[x.a:x.b], out[y.a:y.b]
                 if sx != sy:
-                    edits.extend(_char_script(sx, sy, x.a))
+                    edits.extend(_token_script(sx, sy, x.a))
                 ps, po = x.b, y.b
         else:
             es = ts[i2 - 1].b if i2 > i1 else ps
